@@ -17,7 +17,8 @@ EXPLANATION = (
     "more than one member (or the overshoot test of the top-m selector); every resolution flows, "
     "keyed by the tied set, into the tiebreaks= field of the state recorded by the same step; the "
     "scored tiebreaks use borda/first-place scores restricted to the tied set and fall back to "
-    "random only behind the still-tied test; the selector splits the resolution prefix/suffix at one "
+    "random only behind the still-tied test; each tiebreak code reaches its own branch of tiebreak_set and an "
+    "unrecognised code reaches none; the scores behind a scored tiebreak are requested and summed exactly; the selector splits the resolution prefix/suffix at one "
     "point. Does NOT decide that a recorded set was actually tied on every input."
 )
 ASSUMPTIONS = [
